@@ -417,6 +417,67 @@ def oracle_taprouter(line, impl_out):
     return rt_all_dumps(line, impl_out)
 
 
+# ---------------------------------------------------------------------------------------------------------------------------
+# 8. a peer LEAVES (graceful shutdown: CLOSE to everybody): from that very moment - before any housekeeping tick - nothing selects it
+CLOSE_MARK = "X.9989"
+
+
+def close_cases(rng, count):
+    out = []
+    for _ in range(count):
+        learning = rng.random() < 0.4
+        s = nu.Scenario()
+        if learning:
+            mode = rng.choice(["tap-switch", "tap-normal"])
+            for i in (1, 2, 3):
+                s.node(i, mode=mode, st=3600)
+        else:
+            s.node(1, mode="tun-router", claims=[_claim(1)])
+            s.node(2, mode="tun-router", claims=["0a000200/24", "0a000209/32"][:rng.choice([1, 2])])
+            s.node(3, mode="tun-router", claims=["0a000000/8"])         # the wider claim that takes over
+        s.add("C.2.1", "A", "C.3.1", "A")
+        s.tick(rng.choice([3, 10, 70]))
+        if learning:
+            s.add("P.2.%s" % nu.eth_frame(b"\xff" * 6, nu.mac(42)), "A", "O.1", "O.2", "O.3")
+            probe = "P.1.%s" % nu.eth_frame(nu.mac(42), nu.mac(1))
+        else:
+            probe = "P.1.%s" % nu.ipv4_packet(nu.node_ip(1), bytes([10, 0, 2, 9]))
+        if rng.random() < 0.6:
+            s.add(probe, "A", "O.2", "O.3")                 # a cached decision for the leaving peer
+        s.add(CLOSE_MARK, "E.2", "A")                        # node 2 leaves; its CLOSE is delivered
+        s.add("S.1", probe, "A", "O.2", "O.3")               # at once, no housekeeping in between
+        s.tick(1)
+        s.add("S.1", probe, "A", "O.2", "O.3")
+        out.append(s.line())
+    return out
+
+
+def oracle_close(line, impl_out):
+    ops, outs = line.split()[1:], impl_out.split()
+    if len(ops) != len(outs):
+        return "driver returned %d results for %d ops" % (len(outs), len(ops))
+    if any(r.startswith("panic") for r in outs):
+        return "panic"
+    k = ops.index(CLOSE_MARK)
+    for i in range(k, len(ops)):
+        o, r = ops[i], outs[i]
+        if o == "S.1":
+            d = nu.parse_dump(r)
+            if any(p[0] == "2" for p in d["peers_l"]):
+                return "node 2 sent CLOSE but node 1 still holds it as a peer"
+            v = rt_violation(d)
+            if v:
+                return "after node 2 left: " + v
+        elif o.startswith("P.1."):
+            got = sorted(x for x, _ in nu.emissions(r))
+            if got != [3]:
+                return ("right after node 2 left (CLOSE delivered, no housekeeping tick yet) a frame for one of its addresses read at node 1 went to %s; "
+                        "the remaining peer [3] is to get it (wider claim / flooding) - never the peer that left, never nobody") % got
+            if outs[i + 3] == "w-":
+                return "frame not delivered at node 3"
+    return None
+
+
 FAMILIES = [("reannounce", reannounce_cases, oracle_reannounce), ("silent", silent_learned_cases, oracle_silent_learned)]
 
 
@@ -425,13 +486,13 @@ def is_node(line):
 
 
 def family_of(line):
-    for mark, name in ((REBIND_MARK, "rebind"), (NESTED_MARK, "nested"), (TIMEOUTS_MARK, "timeouts"), (TAPROUTER_MARK, "taprouter")):
+    for mark, name in ((REBIND_MARK, "rebind"), (NESTED_MARK, "nested"), (TIMEOUTS_MARK, "timeouts"), (TAPROUTER_MARK, "taprouter"), (CLOSE_MARK, "close")):
         if " %s " % mark in line:
             return name
     return "silent" if " M.3.1 " in line else "reannounce"
 
 
-ORACLES = {"rebind": oracle_rebind, "nested": oracle_nested, "timeouts": oracle_timeouts, "taprouter": oracle_taprouter,
+ORACLES = {"close": oracle_close, "rebind": oracle_rebind, "nested": oracle_nested, "timeouts": oracle_timeouts, "taprouter": oracle_taprouter,
            "silent": oracle_silent_learned, "reannounce": oracle_reannounce}
 
 
